@@ -42,22 +42,22 @@ def run(rep):
     rep.rewrites.update(info["rewrites"])
     for a in info["assumptions"]:
         rep.assume(a)
-    rep.functions.append("sophia_iri::relativize::Relativizer::relativize (iri/src/relativize.rs), extracted; callee `candidate` abstracted to an arbitrary function")
+    rep.functions.append("sophia_iri::relativize::Relativizer::relativize (iri/src/relativize.rs), extracted together with the guard helper `checked` (when present); callees `candidate` and `protect` abstracted to arbitrary functions")
     failed = verus.record(rep, res, info["expect_functions"], "verus:relativize::", "")
     can = relativize.build(core.REPO, canary="no_guard")
     cres = verus.run_verus(ID, "relativize_canary", can["text"])
     rep.guard("canary: without the resolve-and-compare guard the postcondition must be refuted",
-              cres["funcs"].get("Relativizer::relativize") is False, str(cres["funcs"]))
+              (cres["funcs"].get("Relativizer::checked", cres["funcs"].get("Relativizer::relativize")) is False), str(cres["funcs"]))
     if failed:
         rc, out, err, secs = native.run_replay(ID, "c17", ["first"])
         witness, confirmed = (out.strip().splitlines()[0], True) if rc == 1 else (None, False)
         for f in failed:
             rep.violation("verus:relativize::" + f, verus.blocks_for(res, [f]), witness=witness,
-                          replay_text="./check C17 --replay <this file>   # replay_src/c17: 168810 (base, IRI, parents) triples on the real sophia_iri",
+                          replay_text="./check C17 --replay <this file>   # replay_src/c17: 169800 (base, IRI, parents) triples on the real sophia_iri",
                           confirmed=confirmed)
     # bounded stand-in for the clauses outside the Verus proof (str-heavy heuristic; CBMC does not finish on it)
     native.bounded_stand_in(rep, ID, "c17", ["first"], "c17_enumerator",
-                            "168810 (base, IRI, parents) triples: bases from 2 prefixes x 11 tails, IRIs with tails of <= 4 characters over {a,b,/,.,:,?,#}, parents 0..2, plus a completeness family (26 bases incl. empty paths, no authority, non-ASCII; 15 query/fragment suffixes): Some(r) => valid reference, resolve(base, r) == iri, '../' count <= parents; IRIs equal to the base up to query/fragment are relativised unless no reference of <= 5 characters resolves to them; no panic",
+                            "169800 (base, IRI, parents) triples: bases from 2 prefixes x 11 tails, IRIs with tails of <= 4 characters over {a,b,/,.,:,?,#}, parents 0..2, plus a completeness family (36 bases incl. empty paths, no authority, non-ASCII, ':' in the last segment, '?' and '/' inside the query; 20 query/fragment suffixes): Some(r) => valid reference, resolve(base, r) == iri, '../' count <= parents; IRIs equal to the base up to query/fragment are relativised unless no reference of <= 5 characters resolves to them; no panic",
                             "tails <= 4 characters, 7-letter alphabet", "Relativizer::new, Relativizer::candidate, longest_common_prefix (iri/src/relativize.rs); BaseIri::resolve (oxiri)",
                             "./check C17 --replay <this file>")
     rep.not_covered += ["number of leading '../' <= parents (bounded native stand-in only)", "IRIs equal to the base up to query/fragment are always relativised (completeness of the heuristic)",
